@@ -92,6 +92,8 @@ def edit_family(run, replay):
     models.edit_model(run, prop)
     if prop == "C17":
         models.nni_model(run)
+    if prop == "C15":
+        models.two_trees_model(run)
     edit_random(run, prop, nhist, steps, maxtips)
     if prop in CLI_CASES:
         cli_stage(run, prop, "TraceEdit.tla", TRACE_CFG % ('"%s"' % prop, "TRUE"))
